@@ -7,4 +7,4 @@ Separate Extraction wire_anchor ahx_dec a85_dec rl_dec lzw_dec unpredict run_cha
   parse_flate parse_lzw parse_ccitt ccitt_geometry predict_params pp_validate dict_of_list
   get_filters read_all construct content_read as_malformed StreamBudget MaxXRefEntries
   plane_charge plane_alloc prog_site predict_site ccitt_site pool_run lzw_table_bytes run_sites
-  main_table_ok run_table_ok ccitt_read row_len.
+  main_table_ok run_table_ok ccitt_read row_len run_scans.
